@@ -117,7 +117,7 @@ class QGen:
             if self.allow_volatile:
                 pool += ["vol", "nocache"]
             if self.allow_mutators:
-                pool += ["push", "push", "setkey", "dfcol", "mutvar", "mk"]
+                pool += ["push", "push", "setkey", "dfcol", "mutvar", "mk", "deepmut"]
             if self.allow_fail:
                 pool += ["boom", "needs", "nosuchcmd"]
             c = r.choice(pool)
@@ -136,7 +136,7 @@ class QGen:
             a = opt([self.float_arg(D, P)])
             self._numeric_prefix = True
         elif c == "mk":
-            a = opt([r.choice(["list", "dict", "nested", "df", "bytes", "text", "none", "float", "tuple", "pairs", "set"]), str(r.choice([0, 1, 2, 3]))])
+            a = opt([r.choice(["list", "dict", "nested", "df", "bytes", "text", "none", "float", "tuple", "pairs", "set", "matrix", "lod"]), str(r.choice([0, 1, 2, 3]))])
             self._numeric_prefix = False
         elif c == "firstcat":
             a = [self.str_arg(D, P) for _ in range(r.randint(0, 3))]
@@ -205,6 +205,9 @@ class QGen:
             self._numeric_prefix = False
         elif c == "dfcol":
             a = [r.choice(["c", "a", "z"])]
+            self._numeric_prefix = False
+        elif c == "deepmut":
+            a = opt([self.str_arg(D, P)])
             self._numeric_prefix = False
         elif c == "mutvar":
             a = [r.choice(NAMES + ["mlist"])]
